@@ -108,7 +108,13 @@ func genNode(r *kit.Rand, kind string) string {
 			keep = "1"
 		case 1:
 			keep = "1"
-			kl = escList(subset(r, append(append([]string{}, as...), "v", "w", "h", "nope"), 1))
+			pool := append(append([]string{}, as...), "v", "w", "h", "nope")
+			if r.Bool() {
+				// all results (some are named like existing fields: scope-before-raw-field precedence) + some raw names
+				kl = escList(append(append([]string{}, as...), subset(r, []string{"w", "f", "nope"}, 0)...))
+			} else {
+				kl = escList(subset(r, pool, 1))
+			}
 			if r.Chance(3, 4) {
 				kl = strings.ReplaceAll(strings.ReplaceAll(","+kl+",", ",nope,", ","), ",,", ",")
 				kl = strings.Trim(kl, ",")
